@@ -343,7 +343,8 @@ Definition witem_ok (four : bool) (w : wattr) : Prop :=
   end.
 
 Lemma wire_attr_parse_item four p w p' :
-  wf_bytes (p_rest p) -> wire_attr_parse four p = Ok (w, p') -> witem_ok four w /\ wf_bytes (p_rest p').
+  wf_bytes (p_rest p) -> wire_attr_parse four p = Ok (w, p') ->
+  witem_ok four w /\ wf_bytes (p_rest p') /\ (forall v, wattr_value w = Ok v -> (length v + remaining p' + 3 <= remaining p)%nat).
 Proof.
   unfold wire_attr_parse. intros Hwf H.
   destruct (parse_u8 p) as [[fl p1]| |] eqn:E1; cbn [bind] in H; try discriminate.
@@ -380,12 +381,18 @@ Proof.
     - destruct lf as [|x [|y [|z lf]]]; cbn in Llf; try lia. reflexivity.
     - destruct lf as [|x [|y lf]]; cbn in Llf; try lia. reflexivity. }
   assert (Hl16 : N.of_nat (length v) <= 65535) by lia.
+  assert (Hrem : (length v + remaining p4 + 3 <= remaining p)%nat).
+  { unfold remaining. rewrite R0. cbn [length]. rewrite Er1, app_length, Ev, app_length. destruct (has_ext b0); lia. }
   rewrite Etlv in H.
   destruct (attr_rule b1) as [[[cf vr] lr]|] eqn:Er.
-  - destruct (validate vr four v) eqn:Ev2; apply Ok_inj in H; inversion H; subst w p'; (split; [|exact W4]); exists v.
-    + cbn [wattr_value index nth_error bind wattr_code]. fold hlen. repeat split; auto. exists cf, vr, lr. auto.
-    + cbn [wattr_value wattr_code]. repeat split; auto. eauto.
-  - apply Ok_inj in H. inversion H; subst w p'. split; [|exact W4]. exists v. cbn [wattr_value wattr_code]. fold hlen. repeat split; auto.
+  - destruct (validate vr four v) eqn:Ev2; apply Ok_inj in H; inversion H; subst w p'; (split; [|split; [exact W4|]]).
+    + exists v. cbn [wattr_value index nth_error bind wattr_code]. fold hlen. repeat split; auto. exists cf, vr, lr. auto.
+    + cbn [wattr_value index nth_error bind]. fold hlen. rewrite Tv. intros v0 E0. apply Ok_inj in E0. subst v0. exact Hrem.
+    + exists v. cbn [wattr_value wattr_code]. repeat split; auto. eauto.
+    + cbn [wattr_value]. intros v0 E0. apply Ok_inj in E0. subst v0. exact Hrem.
+  - apply Ok_inj in H. inversion H; subst w p'. split; [|split; [exact W4|]].
+    + exists v. cbn [wattr_value wattr_code]. fold hlen. repeat split; auto.
+    + cbn [wattr_value]. fold hlen. rewrite Tv. intros v0 E0. apply Ok_inj in E0. subst v0. exact Hrem.
 Qed.
 
 Lemma to_owned_value w v : wattr_value w = Ok v ->
@@ -399,4 +406,123 @@ Proof.
   - destruct (index tlv 0) as [f| |]; cbn [bind]; try discriminate. intros ->. reflexivity.
   - intros ->. reflexivity.
   - intros H. apply Ok_inj in H. now subst.
+Qed.
+
+(* ---- re-encoding one owned attribute ---- *)
+Definition norm_flags (f : N) (len : nat) : N :=
+  if Nat.ltb 255 len then set_ext (set_partial f) else clear_ext (set_partial f).
+
+Definition reenc_wf (x : pattr) : Prop :=
+  match x with
+  | AUnimpl f c v => f < 256 /\ c < 256 /\ wf_bytes v /\ N.of_nat (length v) <= 65535 /\ attr_rule c = None
+  | AInvalid f c v => c < 256 /\ wf_bytes v /\ N.of_nat (length v) <= 65535 /\ exists vr lr, attr_rule c = Some (f, vr, lr)
+  | _ => wf_attr x = true
+  end.
+
+(* what the decoder reports for the re-encoded attribute *)
+Definition same_attr (x : pattr) (w' : wattr) : Prop :=
+  wattr_code w' = attr_code x /\
+  match x with
+  | AUnimpl f c v => to_owned w' = Ok (AUnimpl (norm_flags f (length v)) c v)
+  | AInvalid f c v => wattr_value w' = Ok v
+  | _ => to_owned w' = Ok x
+  end.
+
+Lemma item_owned four w :
+  witem_ok four w -> (forall v, wattr_value w = Ok v -> N.of_nat (3 * length v) <= 65535) ->
+  exists x, to_owned w = Ok x /\ reenc_wf x /\ attr_code x = wattr_code w.
+Proof.
+  intros (v & Hv & Hwf & Hl & Hc & Hk) Hsz. rewrite (to_owned_value w v Hv). specialize (Hsz v Hv).
+  destruct w as [c f4 tlv|fl c tlv|cf c v0]; cbn [wattr_code] in *.
+  - destruct Hk as (-> & cf & vr & lr & Hr & Hval).
+    destruct (owned_wf c four v cf vr lr Hr Hval Hwf Hsz) as (x & E1 & E2 & E3).
+    exists x. split; [exact E1|]. split; [|exact E3]. destruct x; cbn [reenc_wf]; try exact E2; cbn [wf_attr] in E2; discriminate.
+  - destruct Hk as (Hf & Hr). eexists. split; [reflexivity|]. split; [|reflexivity]. cbn [reenc_wf]. repeat split; auto.
+  - destruct Hk as (vr & lr & Hr). eexists. split; [reflexivity|]. split; [|reflexivity]. cbn [reenc_wf]. repeat split; auto. eauto.
+Qed.
+
+Lemma set_clear_ext' f : set_ext (clear_ext f) = set_ext f.
+Proof.
+  unfold set_ext, clear_ext, has_ext. destruct ((f / 16) mod 2 =? 1) eqn:E.
+  - apply N.eqb_eq in E. assert (16 <= f) by lia.
+    replace (((f - 16) / 16) mod 2 =? 1) with false by (symmetry; apply N.eqb_neq; lia). lia.
+  - rewrite E. reflexivity.
+Qed.
+
+Lemma raw_compose_header f c v :
+  [norm_flags f (length v); c] ++ (if Nat.ltb 255 (length v) then be 2 (sat16 (length v)) else [sat8 (length v)]) ++ v
+  = header (clear_ext (set_partial f)) c (length v) ++ v.
+Proof. unfold header, norm_flags. destruct (Nat.ltb 255 (length v)); [rewrite set_clear_ext'|]; reflexivity. Qed.
+
+Lemma header_len3 f c n : (3 <= length (header f c n))%nat.
+Proof. unfold header. destruct (Nat.ltb 255 n); cbn [length app]; rewrite ?be_length; lia. Qed.
+
+Lemma slice_header f c (v : bytes) :
+  ((length v <= 255)%nat -> has_ext f = false) ->
+  let hdr := header f c (length v) in
+  exists f0, index (hdr ++ v) 0 = Ok f0 /\ slice_from (hdr ++ v) (if has_ext f0 then 4 else 3) = Ok v /\
+             f0 = (if Nat.ltb 255 (length v) then set_ext f else f).
+Proof.
+  intros Hext hdr. unfold hdr, header. destruct (Nat.ltb 255 (length v)) eqn:E.
+  - exists (set_ext f). cbn [app index nth_error]. rewrite has_ext_set. unfold slice_from. cbn [length Nat.leb skipn]. auto.
+  - apply Nat.ltb_ge in E. exists f. cbn [app index nth_error]. rewrite (Hext E). unfold slice_from. cbn [length Nat.leb skipn]. auto.
+Qed.
+
+Lemma reencode_one x rest pos :
+  reenc_wf x ->
+  exists bs w', compose x = Ok bs /\ (3 <= length bs)%nat /\
+                wire_attr_parse true (mkP (bs ++ rest) pos) = Ok (w', mkP rest (pos + length bs)) /\ same_attr x w'.
+Proof.
+  intros H.
+  assert (Typed : wf_attr x = true -> exists bs w', compose x = Ok bs /\ (3 <= length bs)%nat /\
+                wire_attr_parse true (mkP (bs ++ rest) pos) = Ok (w', mkP rest (pos + length bs)) /\
+                wattr_code w' = attr_code x /\ to_owned w' = Ok x).
+  { intros Hwf. destruct (c04_roundtrip_proof x rest pos Hwf) as (bs & w' & E1 & E2 & E3).
+    exists bs, w'. split; [exact E1|]. split.
+    - destruct (c04_header_proof x bs Hwf E1) as (v & f & _ & N0 & N1 & _). destruct bs as [|a [|b [|c bs]]]; cbn in *; try discriminate; try lia.
+      (* a header has at least three octets *)
+      exfalso. destruct (value_facts x Hwf) as (v' & cf & vr & lr & Hv' & Hr & Hl' & _).
+      assert (Hc : compose x = Ok (header (canon_flags (attr_code x)) (attr_code x) (length v') ++ v')).
+      { destruct x; cbn [wf_attr] in Hwf; try discriminate; unfold compose; rewrite Hl', Hv'; reflexivity. }
+      rewrite Hc in E1. apply Ok_inj in E1. pose proof (header_len3 (canon_flags (attr_code x)) (attr_code x) (length v')) as L3.
+      assert (L : length (header (canon_flags (attr_code x)) (attr_code x) (length v') ++ v') = 2%nat) by (rewrite E1; reflexivity).
+      rewrite app_length in L. lia.
+    - split; [exact E2|]. split; [|exact E3].
+      (* the code of the parsed item *)
+      destruct (value_facts x Hwf) as (v' & cf & vr & lr & Hv' & Hr & Hl' & Hval & _ & Hsz & Hcf).
+      assert (Hc : compose x = Ok (header cf (attr_code x) (length v') ++ v')).
+      { unfold canon_flags in *. destruct x; cbn [wf_attr] in Hwf; try discriminate; unfold compose, canon_flags; rewrite Hl', Hv', Hr; reflexivity. }
+      rewrite Hc in E1. apply Ok_inj in E1. subst bs. rewrite <- app_assoc in E2.
+      rewrite frame in E2 by (try assumption; intros _; exact Hcf). unfold frame_result in E2. rewrite Hr, Hval in E2.
+      apply Ok_inj in E2. inversion E2; subst w'. reflexivity. }
+  destruct x; try (destruct (Typed H) as (bs & w' & A & B & C & D & E); exists bs, w'; repeat split; assumption); cbn [reenc_wf] in H.
+  - (* unknown type *)
+    destruct H as (Hf & Hc & Hwf & Hl & Hr).
+    eexists. eexists. split; [cbn [compose]; fold (norm_flags flags (length value)); reflexivity|].
+    rewrite raw_compose_header. split; [rewrite app_length; pose proof (header_len3 (clear_ext (set_partial flags)) code (length value)); lia|].
+    rewrite <- app_assoc. rewrite frame by (try assumption; intros _; apply has_ext_clear). unfold frame_result. rewrite Hr.
+    split; [match goal with |- Ok (?a, mkP ?r ?x) = Ok (_, mkP ?r ?y) => replace y with x by (rewrite app_length; lia); reflexivity end|].
+    split; [reflexivity|]. cbn [to_owned].
+    destruct (slice_header (clear_ext (set_partial flags)) code value (fun _ => has_ext_clear _)) as (f0 & I1 & I2 & I3).
+    assert (Hnf : (if Nat.ltb 255 (length value) then set_ext (clear_ext (set_partial flags)) else clear_ext (set_partial flags))
+                  = norm_flags flags (length value)).
+    { unfold norm_flags. destruct (Nat.ltb 255 (length value)); [apply set_clear_ext'|reflexivity]. }
+    rewrite Hnf in *. unfold index in I1. destruct (nth_error _ 0) eqn:En; [|discriminate]. apply Ok_inj in I1. subst n.
+    rewrite I3 in I2. rewrite I2. reflexivity.
+  - (* recognised type, invalid value *)
+    destruct H as (Hc & Hwf & Hl & vr & lr & Hr).
+    assert (Hcomp : compose (AInvalid flags code value) = Ok (header (clear_ext (set_partial flags)) code (length value) ++ value)).
+    { cbn [compose]. fold (norm_flags flags (length value)). rewrite raw_compose_header. reflexivity. }
+    pose proof (header_len3 (clear_ext (set_partial flags)) code (length value)) as L3.
+    assert (Hparse : wire_attr_parse true (mkP ((header (clear_ext (set_partial flags)) code (length value) ++ value) ++ rest) pos)
+              = frame_result true (clear_ext (set_partial flags)) code value (header (clear_ext (set_partial flags)) code (length value))
+                  (mkP rest (pos + length (header (clear_ext (set_partial flags)) code (length value) ++ value)))).
+    { rewrite <- app_assoc. rewrite frame by (try assumption; intros _; apply has_ext_clear). f_equal. f_equal. rewrite app_length. lia. }
+    unfold frame_result in Hparse. rewrite Hr in Hparse.
+    destruct (validate vr true value).
+    + eexists. eexists. split; [exact Hcomp|]. split; [rewrite app_length; lia|]. split; [exact Hparse|]. split; [reflexivity|].
+      cbn [wattr_value].
+      destruct (slice_header (clear_ext (set_partial flags)) code value (fun _ => has_ext_clear _)) as (f0 & I1 & I2 & _).
+      rewrite I1. cbn [bind]. exact I2.
+    + eexists. eexists. split; [exact Hcomp|]. split; [rewrite app_length; lia|]. split; [exact Hparse|]. split; reflexivity.
 Qed.
